@@ -122,6 +122,12 @@ func (g *gen) opBlock() *Op {
 	if g.rng.Intn(5) == 0 && p.lastSlot > p.slot {
 		slot = p.slot + 1 + g.rng.Intn(p.lastSlot-p.slot+1)
 	}
+	if c := (p.slot/g.spe + 1) * g.spe; p.lastSlot >= c && g.rng.Intn(3) == 0 {
+		// a late sibling exactly at an epoch start slot that already exists as a gap node of the parent root: it hangs
+		// off the node before the checkpoint node <<parent, c>> and is not a descendant of that checkpoint
+		n := (p.lastSlot - c) / g.spe
+		slot = c + g.spe*g.rng.Intn(n+1)
+	}
 	b := &gblock{root: g.newRoot(), parent: p.root, slot: slot, je: p.je, fe: p.fe, jcp: p.jcp, fcp: p.fcp, lastSlot: slot}
 	ep := slot / g.spe
 	if ep > b.je && g.rng.Intn(3) == 0 {
@@ -219,7 +225,12 @@ func (g *gen) opUJ(pruneHeavy bool) *Op {
 	if g.rng.Intn(8) == 0 {
 		op.SinkFail = 1 + g.rng.Intn(3)
 	}
-	// shadow bookkeeping for a plausible success
+	g.shadowUJ(op, b)
+	return op
+}
+
+// shadowUJ: bookkeeping for a plausible success of an UpdateJustified op triggered by block b
+func (g *gen) shadowUJ(op *Op, b *gblock) {
 	if op.BalErr == 0 && op.J == b.jcp && op.F == b.fcp && op.Trigger == b.root &&
 		(b.je > g.je || b.fe > g.fe) && b.je >= b.fe && b.fe >= g.fe {
 		if fb, ok := g.blocks[op.F.Root]; ok && (op.F.Epoch == g.fe || g.isDesc(fb, g.finRoot)) {
@@ -242,7 +253,61 @@ func (g *gen) opUJ(pruneHeavy bool) *Op {
 			}
 		}
 	}
-	return op
+}
+
+// gapForkMotif: two blocks on one parent root R, X exactly at an epoch start slot c and Y after it, most votes on X,
+// then the checkpoint (epoch of c, R) - a gap-slot node on Y's chain - is justified and, half of the time, finalized.
+// X is not below that checkpoint although it sits at the checkpoint's slot on the checkpoint's root.
+func (g *gen) gapForkMotif() []*Op {
+	p := g.pickBlock(false)
+	c := (max(p.lastSlot, p.slot)/g.spe + 1) * g.spe
+	if g.rng.Intn(3) == 0 && p.lastSlot >= (p.slot/g.spe+1)*g.spe {
+		c = (p.slot/g.spe + 1) * g.spe // the gap node <<R, c>> exists already
+	}
+	e := c / g.spe
+	if e <= p.je {
+		return nil
+	}
+	var ops []*Op
+	x := &gblock{root: g.newRoot(), parent: p.root, slot: c, je: p.je, fe: p.fe, jcp: p.jcp, fcp: p.fcp, lastSlot: c}
+	y := &gblock{root: g.newRoot(), parent: p.root, slot: c + 1 + g.rng.Intn(2), je: e, fe: p.fe, fcp: p.fcp}
+	y.lastSlot = y.slot
+	y.jcp = CP{Epoch: e, Root: p.root}
+	fin := g.rng.Intn(2) == 0
+	if fin {
+		y.fe, y.fcp = e, y.jcp
+	}
+	if g.rng.Intn(4) != 0 {
+		// X's own state claims the same epochs (its checkpoint of epoch e is X itself), so it stays viable for head
+		x.je, x.fe, x.jcp = y.je, y.fe, CP{Epoch: e, Root: x.root}
+		if fin {
+			x.fcp = x.jcp
+		}
+	}
+	order := []*gblock{x, y}
+	if g.rng.Intn(2) == 0 {
+		order = []*gblock{y, x}
+	}
+	for _, b := range order {
+		g.blocks[b.root] = b
+		g.order = append(g.order, b.root)
+		if b.slot > p.lastSlot {
+			p.lastSlot = b.slot
+		}
+		ops = append(ops, &Op{Ev: "ProcessBlock", H: g.h, ObsHead: 1, Parent: p.root, Root: b.root, Slot: b.slot, JE: b.je, FE: b.fe})
+	}
+	for v := 0; v < g.nvals; v++ {
+		t := x
+		if v == g.nvals-1 && g.nvals > 1 && g.rng.Intn(3) != 0 {
+			t = y
+		}
+		ops = append(ops, &Op{Ev: "ProcessAttestation", H: g.h, ObsHead: 1, V: v, Root: t.root, Slot: t.slot})
+	}
+	ops = append(ops, &Op{Ev: "Query", H: g.h, Q: "Head"})
+	uj := &Op{Ev: "UpdateJustified", H: g.h, ObsHead: 1, Trigger: y.root, J: y.jcp, F: y.fcp, Bal: g.bals()}
+	g.shadowUJ(uj, y)
+	ops = append(ops, uj, &Op{Ev: "Query", H: g.h, Q: "Head"})
+	return ops
 }
 
 func (g *gen) opPin() *Op {
@@ -335,6 +400,13 @@ func genHistory(rng *rand.Rand, h int, nops int, profile string, spe int) []*Op 
 		}[profile]
 		if w[5] == 0 {
 			w = [6]int{30, 38, 58, 70, 74, 100}
+		}
+		if rng.Intn(40) == 0 {
+			if m := g.gapForkMotif(); m != nil {
+				ops = append(ops, m...)
+				i += len(m) - 1
+				continue
+			}
 		}
 		x := rng.Intn(100)
 		var op *Op
